@@ -175,6 +175,25 @@ def run(ctx):
             ctx.spec_fail('duplicates|many-chunks', 'duplicates / unique / distinct over a sort of %d rows in chunks of %d do not partition the rows by key multiplicity' % (n, bs),
                           {'nrows': n, 'buffersize': bs, 'table': 'rows [key, i]: every fifth key occurs once, the others are drawn from [1, 2, 3, "a", None]'})
 
+    # ---- a key given as a negative position names the same field as its name does
+    for ci in range(120 if ctx.thorough() else 40):
+        hdr = ['a', 'b', 'c'][:rng.choice([2, 3])]
+        T = [hdr] + [[rng.choice([1, 2, 3, None]) for _ in hdr] for _ in range(rng.choice([2, 3, 5, 6]))]
+        j = rng.randrange(len(hdr))
+        neg, nm = j - len(hdr), hdr[j]
+        keys = [(neg, nm)]
+        if len(hdr) == 3:
+            keys.append(((-3, -1), ('a', 'c')))
+            keys.append((('a', -1), ('a', 'c')))
+        for kneg, knm in keys:
+            for op in ('duplicates', 'unique', 'distinct', 'conflicts'):
+                a, b = util.run_show(lambda: getattr(etl, op)(T, kneg)), util.run_show(lambda: getattr(etl, op)(T, knm))
+                ctx.case(('negative-key', op, repr(T), repr(kneg)))
+                ctx.count('negative-key')
+                if a != b or etl.isunique(T, kneg) != etl.isunique(T, knm):
+                    ctx.spec_fail('%s|negative-key-position' % op, '%s with the key given as a negative position differs from the same key given by name' % op,
+                                  {'op': op, 'table': repr(T), 'key by position': repr(kneg), 'key by name': repr(knm), 'by position': a, 'by name': b})
+
     util.exotic_key_cases(etl, rng, ctx, 'C10', 200 if ctx.thorough() else 50)
     util.positional_call_cases(etl, rng, ctx, ['duplicates', 'unique', 'distinct'], 120 if ctx.thorough() else 36, 1)
 
